@@ -122,6 +122,8 @@ def execute(c):
 
 def keyfn(c, o, why):
     if c["var"] == "big":
+        if why.startswith("rejected-a-well-formed-document-"):
+            why = "rejected-a-well-formed-document"          # the key does not depend on which exception class says so
         return "big-%s:%s" % (c["kind"], why if c["n"] < 900 else why + ":n>=900")
     return "%s:%s" % (c["var"], why)
 
